@@ -62,9 +62,9 @@ class InfixOperator(ExpressionToken):
         if not isinstance(lhs, BaseDeferred) and not isinstance(rhs, BaseDeferred):
             return invoke(lhs, rhs)
         if self.awaited:
-            return Deferred[self.return_type](lambda: invoke(wait(lhs), wait(rhs)))
+            return Deferred[self.return_type or int](lambda: invoke(wait(lhs), wait(rhs)))
         else:
-            return Deferred[self.return_type](lambda: invoke(lhs, rhs))
+            return Deferred[self.return_type or int](lambda: invoke(lhs, rhs))
 
     def __eq__(self, other):
         return isinstance(other, type(self)) and (self.lhs, self.rhs) == (other.lhs, other.rhs)
@@ -100,9 +100,9 @@ class UnaryOperator(ExpressionToken):
         if not isinstance(operand, BaseDeferred):
             return invoke(operand)
         if self.awaited:
-            return Deferred[self.return_type](lambda: invoke(wait(operand)))
+            return Deferred[self.return_type or int](lambda: invoke(wait(operand)))
         else:
-            return Deferred[self.return_type](lambda: invoke(operand))
+            return Deferred[self.return_type or int](lambda: invoke(operand))
 
     def __eq__(self, rhs):
         return isinstance(rhs, type(self)) and self.operand == rhs.operand
